@@ -4,7 +4,7 @@ namespace Url
 /-! # C19 `wire_roundtrip`: the request line the client writes, as the server reads it
 
 Client (`GeminiClient.get` → `_get_single` → `GeminiClientProtocol.send_request`): `validate_url(url)`
-on the caller's string, then the bytes of `parse_url(url).normalized + "\r\n"`.
+on the caller's string, `validate_url(parse_url(url).normalized)`, then the bytes of `normalized + "\r\n"`.
 Server (`GeminiServerProtocol.data_received` → `GeminiRequest.from_line`): the text before the first
 CRLF, refused when longer than `MAX_REQUEST_SIZE - 2` bytes, otherwise `parse_url`.
 The UTF-8 encode/decode pair between the two is the identity on text and cannot create a CRLF
@@ -34,11 +34,15 @@ def validated (env : Env) (maxReq : Nat) (line : Str) : Except WireErr Parsed :=
     | .error e => .error (.url e)
     | .ok P => .ok P
 
-/-- what the client writes for the caller's URL -/
+/-- what the client writes for the caller's URL: `get` validates the caller's string, `_get_single`
+    parses it and validates the normalised form, which is what goes on the wire -/
 def clientWire (env : Env) (maxReq : Nat) (u : Str) : Except WireErr Str :=
   match validated env maxReq u with
   | .error e => .error e
-  | .ok P => .ok (P.normalized ++ crlf)
+  | .ok P =>
+    match validated env maxReq P.normalized with
+    | .error e => .error e
+    | .ok _ => .ok (P.normalized ++ crlf)
 
 /-- what the server makes of the bytes it received -/
 def serverParse (env : Env) (maxReq : Nat) (wire : Str) : Except WireErr Parsed :=
